@@ -13,7 +13,11 @@ use c2pa::{
     Context,
 };
 
-use crate::common::{Rng, Run};
+use vh::common::{main_with, Rng, Run};
+
+fn main() {
+    main_with("C04", run);
+}
 
 const TOLERATED: &str = "signingCredential.untrusted";
 
